@@ -9,12 +9,14 @@ use simple_dns::*;
 
 fn parse_out(b: &[u8]) -> String {
     let bb = b.to_vec();
+    watch(&format!("parse {}", text::hex(b)));
     guard(move || match Packet::parse(&bb) {
         Ok(p) => format!("ok {}", text::packet(&p)),
         Err(_) => "err".to_string(),
     })
 }
 fn build_out(p: &Packet, compressed: bool) -> (String, Option<Vec<u8>>) {
+    watch(&format!("build{} {}", if compressed { ".comp" } else { "" }, text::packet(p)));
     let r = std::panic::catch_unwind(std::panic::AssertUnwindSafe(|| if compressed { p.build_bytes_vec_compressed() } else { p.build_bytes_vec() }));
     match r {
         Ok(Ok(b)) => (format!("ok {}", text::hex(&b)), Some(b)),
